@@ -88,6 +88,7 @@ def make_case(index, rng, tier):
         at = round(rng.uniform(win[0], max(win[0] + 0.01, win[1])), 3)
         return {"family": fam, "kind": kind, "graceful_timeout": gt, "sig": sig, "clients": clients, "sig_at": at,
                 "sig_tick": rng.randrange(1, 120) if rng.randrange(3) == 0 else None, "keepalive": rng.choice([1, 2, 3]),
+                "binds": rng.choice([1, 1, 2]),
                 "threads": rng.randrange(1, 3), "buggify": {"pyticks": rng.randrange(3) == 0, "short_recv": rng.randrange(3) == 0}}
     if fam == "master":
         n = rng.randrange(1, 4)
@@ -107,7 +108,7 @@ def make_case(index, rng, tier):
                 "unix": rng.randrange(3) == 0, "pidfile": rng.randrange(4) != 0,
                 "buggify": {"pyticks": rng.randrange(3) == 0, "fork_child_first": rng.randrange(2) == 0, "spurious_select": rng.randrange(3) == 0,
                             "random_spawn_delay": rng.randrange(2) == 0},
-                "extra": rng.choice([None, None, "second-signal", "killw"])}
+                "extra": rng.choice([None, None, "second-signal", "killw", "ttou-before", "hup-before"])}
     kind = rng.choice(["sync", "gthread", "gevent"])
     clients = []
     for i in range(rng.randrange(1, 4)):
@@ -116,7 +117,7 @@ def make_case(index, rng, tier):
         clients.append({"ops": ops, "phase": ph})
     return {"family": fam, "kind": kind, "workers": rng.randrange(1, 3), "graceful_timeout": gt, "sig": sig, "clients": clients,
             "sig_at": round(rng.uniform(0.3, 2.5), 2), "unix": False, "pidfile": True, "threads": rng.randrange(1, 3),
-            "keepalive": rng.choice([1, 2]), "buggify": {"pyticks": rng.randrange(3) == 0, "fork_child_first": rng.randrange(2) == 0, "short_recv": rng.randrange(3) == 0}}
+            "binds": rng.choice([1, 1, 2]), "keepalive": rng.choice([1, 2]), "buggify": {"pyticks": rng.randrange(3) == 0, "fork_child_first": rng.randrange(2) == 0, "short_recv": rng.randrange(3) == 0}}
 
 
 def judge_clients(res, case, clients, specs, stream_first_read, term_time, gt, fam, ctxf):
@@ -189,10 +190,13 @@ def run_worker(case, choices):
         sim.py_ticks = True          # eval-breaker points inside gunicorn's Python code are delivery / pre-emption points too
     gt = case["graceful_timeout"]
     kind = case["kind"]
+    two = case.get("binds", 1) == 2
     w = W.WorkerWorld(sim, kind, {"timeout": 30, "graceful_timeout": gt, "keepalive": case["keepalive"], "threads": case["threads"],
-                                  "worker_connections": 10})
+                                  "worker_connections": 10}, extra_addrs=[("127.0.0.1", 8001)] if two else ())
     p = w.start_worker()
-    clients = [w.add_client("c%d" % i, c["ops"]) for i, c in enumerate(case["clients"])]
+    # with two listeners the first client talks to the first one and the others to the second (one listener may stay idle)
+    clients = [w.add_client("c%d" % i, c["ops"], addr=w.addrs[min(i, len(w.addrs) - 1)] if two else None)
+               for i, c in enumerate(case["clients"])]
     state = {"term": None}
     signum = int(SIG[case["sig"]])
 
@@ -285,7 +289,9 @@ def run_master(case, choices):
     gt = case["graceful_timeout"]
     fam = case["family"]
     bind = "unix:/run/g.sock" if case["unix"] else "127.0.0.1:8000"
-    cfg = {"workers": case["workers"], "timeout": 30, "graceful_timeout": gt, "bind": [bind], "proc_name": "m0"}
+    two = case.get("binds", 1) == 2 and not case["unix"]
+    cfg = {"workers": case["workers"], "timeout": 30, "graceful_timeout": gt, "bind": [bind] + (["127.0.0.1:8001"] if two else []),
+           "proc_name": "m0"}
     if case["pidfile"]:
         cfg["pidfile"] = "/run/g.pid"
     scripts = {int(a): dict(s) for a, s in case.get("scripts", {}).items()}
@@ -297,7 +303,8 @@ def run_master(case, choices):
         cfg.update({"threads": case["threads"], "keepalive": case["keepalive"], "worker_connections": 10})
         w.cfgsrc.update(cfg)
         w.use_real_workers(case["kind"])
-        clients = [w.add_client("c%d" % i, c["ops"]) for i, c in enumerate(case["clients"])]
+        clients = [w.add_client("c%d" % i, c["ops"], addr=("127.0.0.1", 8001) if two and i > 0 else None)
+                   for i, c in enumerate(case["clients"])]
     m = w.start_master()
     signum = int(SIG[case["sig"]])
     state = {"sent": None, "worker_term": {}}
@@ -314,6 +321,13 @@ def run_master(case, choices):
         sim.after(case["sig_at"], fire)
     if case.get("extra") == "second-signal":
         sim.after(case["sig_at"] + 0.5, lambda: m.state == "running" and sim.kill(m.pid, signum))
+    elif case.get("extra") in ("ttou-before", "hup-before"):
+        # a worker is being retired (and may still be busy finishing) when the stop signal arrives
+        def retire():
+            if m.state == "running" and int(signal.SIGCHLD) in m.handlers:
+                sim.fault("master_signal:" + case["extra"])
+                sim.kill(m.pid, int(signal.SIGTTOU if case["extra"] == "ttou-before" else signal.SIGHUP))
+        sim.after(max(0.0, case["sig_at"] - 0.4), retire)
     elif case.get("extra") == "killw":
         def kw():
             lw = sorted(master.live_children(sim, m.pid), key=lambda p: p.pid)
@@ -373,7 +387,8 @@ def run_master(case, choices):
                         res.violate("C04:%s:shutdown-too-slow:%s" % (fam, case["sig"]),
                                     "the master handled %s at t=%.2f and exited %.2f s later (graceful_timeout=%s + 1.5 s slack); %s"
                                     % (case["sig"], t_sig, took, gt, ctx()))
-                    if case["sig"] != "TERM" and fam == "master" and took > 1.5 + 1e-6 and not any(
+                    booting = any(ft >= t_sig - 1.5 for ft, _pp, _cp, _k in w.forks)      # a worker still booting cannot obey QUIT yet
+                    if case["sig"] != "TERM" and fam == "master" and took > 1.5 + 1e-6 and not booting and not any(
                             s.get("boot_delay") for s in scripts.values()):
                         res.violate("C04:%s:quick-shutdown-slow" % fam, "%s: the master took %.2f s to exit although workers obey QUIT at once; %s"
                                     % (case["sig"], took, ctx()))
